@@ -180,7 +180,9 @@ func (db *DB) calculateStartOffset(
 				if err != nil {
 					return 0, 0, err
 				}
-				return byteOff, ts, nil
+				// Nothing of this domain is kept, and the target is not a sample: the
+				// previous sample + 1 lies at or before the start of the domain.
+				return byteOff, domainStart, nil
 			}
 			approxStamp, err = db.index().Stamp(
 				ctx,
